@@ -620,6 +620,10 @@ func (l *Lexer) consumeQuotedContent(q string, raw, unicode bool, name string, n
 	}
 
 	if noPanic {
+		// An escape sequence truncated by the end of input may have advanced i past the buffer.
+		if l.pos+i > len(l.Buffer) {
+			i = len(l.Buffer) - l.pos
+		}
 		l.skipN(i)
 		return "", true
 	}
@@ -713,6 +717,10 @@ func (l *Lexer) errorf(msg string, param ...interface{}) *Error {
 }
 
 func (l *Lexer) errorfAtPosition(pos, end token.Pos, msg string, param ...interface{}) *Error {
+	// An escape sequence truncated by the end of input would otherwise point past the buffer.
+	if int(end) > len(l.Buffer) {
+		end = token.Pos(len(l.Buffer))
+	}
 	return &Error{
 		Message:  fmt.Sprintf(msg, param...),
 		Position: l.Position(pos, end),
